@@ -79,6 +79,7 @@ type behaviour struct {
 	startState   string // controllable: the state machine comes up in this state instead of STANDBY (ERROR: start-up failed inside the device)
 	noPid        bool   // controllable: GetState does not report the pid (field left at its proto3 default)
 	firstRunOnly bool   // basic: only the first child behaves as scripted, the later ones run until signalled
+	user         string // the task template names a user to run the command as (the executor then sets credentials on the child)
 }
 
 func (b behaviour) exits() bool { return b.exitAfter > 0 }
@@ -91,6 +92,10 @@ var (
 	bForks     = behaviour{name: "forks", forks: true, exitAfter: time.Second}
 	bForksRuns = behaviour{name: "forksruns", forks: true}
 	bStartFail = behaviour{name: "startfail", startFails: true}
+	// the template sets `user`: the child still has to get its own process group
+	bRunsUser      = behaviour{name: "runsuser", user: "root"}
+	bForksRunsUser = behaviour{name: "forksrunsuser", forks: true, user: "root"}
+	cGoodUser      = behaviour{name: "gooduser", user: "root"}
 	// controllable
 	cGood     = behaviour{name: "good"}
 	cExit0    = behaviour{name: "exit0", exitAfter: 5 * time.Second}
@@ -483,6 +488,10 @@ func (s *scen) body() {
 	shell, value, none := true, "o2-task --run", "none"
 	tci := &common.TaskCommandInfo{ControlPort: 47100}
 	tci.Shell, tci.Value, tci.Stdout, tci.Stderr = &shell, &value, &none, &none
+	if s.beh.user != "" {
+		u := s.beh.user
+		tci.User = &u
+	}
 	switch s.kind {
 	case kBasic:
 		tci.ControlMode = controlmode.BASIC
@@ -872,6 +881,10 @@ func scenarios() (out []*vrt.Scenario) {
 		}
 		out = append(out, mk(kBasic, b, "restart", st("START", wRunning), st("STOP", wSettled, wLater), st("START", wSettled), st("STOP", last...)))
 	}
+	for _, b := range []behaviour{bRunsUser, bForksRunsUser} {
+		out = append(out, mk(kBasic, b, "stop", st("START", wRunning), st("STOP", wNow, wSettled, wLater)))
+		out = append(out, mk(kBasic, b, "kill", st("START", wRunning), st("KILL", wNow, wSettled, wLater)))
+	}
 	out = append(out, mk(kBasic, bRuns, "idle-stop", st("STOP", wNow, wSettled, wRunning)))
 	out = append(out, mk(kBasic, bRuns, "idle-kill", st("KILL", wNow, wSettled, wRunning)))
 	// ---- hooks
@@ -903,6 +916,7 @@ func scenarios() (out []*vrt.Scenario) {
 	}
 	out = append(out, mk(kCtl, cNoListen, "kill", st("KILL", wNow, wSettled, wLater)))
 	out = append(out, mk(kCtl, cNotReady, "kill", st("KILL", wNow, wListening, wLater)))
+	out = append(out, mk(kCtl, cGoodUser, "kill", st("KILL", wNow, wListening, wRunning, wLater)))
 	out = append(out, mk(kCtl, bStartFail, "kill", st("KILL", wNow, wSettled)))
 	for _, b := range []behaviour{cGood, cExit1, bStubborn} {
 		out = append(out, mk(kCtl, b, "run-kill", st("CONFIGURE", wRunning), st("START", wSettled), st("KILL", withExit(b, wSettled)...)))
